@@ -597,6 +597,82 @@ def opBI (args obs : List String) : P String := do
     pure (functional [showList toString (vs.map (fun (v : Int) => quantize fmt r o (v : Rat)))] obs)
   | _ => throw "BI: arity"
 
+/-- C06 relational checker on an observed format and codes: exact, and (for the unspecified sizes) minimal. -/
+def chk06 (sg : Bool) (nwordGiven nfracGiven : Bool) (vals : List Rat) (g : Fmt) (cs : List Int) : Bool :=
+  let exact := zipAll (fun v c => decide (valueOf g c = v) && decide (g.lo ≤ c ∧ c ≤ g.hi)) vals cs
+  let s : Int := if sg then 1 else 0
+  -- fewest fraction bits: with one bit less some value is not representable (or n_frac = 0)
+  let minFrac := nfracGiven || decide (g.nfrac ≤ 0) ||
+    vals.any (fun v => decide ((scale v (g.nfrac - 1)).den ≠ 1))
+  -- fewest word bits with non-negative integer length: one bit less does not hold all values (or n_int = 0)
+  let g' : Fmt := ⟨g.signed, g.nword - 1, g.nfrac⟩
+  let minWord := nwordGiven || decide ((g.nword : Int) - g.nfrac - s ≤ 0) ||
+    vals.any (fun v => let k := (scale v g.nfrac).floor; decide (k < g'.lo ∨ g'.hi < k))
+  exact && decide (g.signed = sg) && minFrac && minWord
+
+/-- `INF <signed=s|u|n> <n_word|-> <n_frac|-> <n_int|-> [vals] | s n f [codes] ov un inacc`
+size inference for dyadic inputs (uncapped). -/
+def opINF (args obs : List String) : P String := do
+  match args with
+  | [sg, w, f, i, vs] =>
+    let signed : Option Bool := if sg == "n" then none else some (sg == "s")
+    let w ← pOptInt w
+    let f ← pOptInt f
+    let i ← pOptInt i
+    let vs ← pList pRat vs
+    match inferFmt signed w f i vs with
+    | none => pure (reply (isExc obs) (isExc obs) ["ERR"])
+    | some g =>
+      let cs := vs.map (quantize g .trunc .saturate)
+      let fl := vs.map (storeFlags g .trunc .saturate)
+      let m := [showSigned g.signed, toString g.nword, toString g.nfrac, showList toString cs] ++ flagsTok fl
+      -- sizes after n_int reconciliation (as the property words it: "the third follows arithmetically")
+      let sg := signed.getD true
+      let sI : Int := if sg then 1 else 0
+      let (w', f') : Option Int × Option Int := match w, f, i with
+        | none, some f, some i => (some (i + f + sI), some f)
+        | some w, none, some i => (some w, some (w - i - sI))
+        | w, f, _ => (w, f)
+      let want : Int × Int := match w', f' with
+        | some w, some f => (w, f)
+        | _, _ => Chk.specSizes sg vs w' f'
+      match obs with
+      | [os, on, of, ocs, ov, un, ia] =>
+        match pFmt os on of, pList pInt ocs with
+        | .ok og, .ok ocs =>
+          let fmtOk := decide ((og.nword : Int) = want.1) && decide (og.nfrac = want.2) && (og.signed == sg)
+          let codesOk := decide (ocs = vs.map (quantize og .trunc .saturate))
+          let flagsOk := [ov, un, ia] == flagsTok (vs.map (storeFlags og .trunc .saturate))
+          let noneGiven := w'.isNone && f'.isNone
+          let s := fmtOk && codesOk && flagsOk &&
+            (!noneGiven || (ov == "0" && un == "0" && ia == "0" && chk06 sg false false vs og ocs))
+          pure (reply (decide (m = obs)) s m)
+        | _, _ => pure (reply false false m)
+      | _ => pure (reply false false m)
+  | _ => throw "INF: arity"
+
+/-- `INC <signed> [vals] | s n f [codes] ov un inacc` — inference for arbitrary doubles (possibly hitting the
+64-bit cap): the word never exceeds 64, every stored value is within one LSB, inexact iff flagged. Relational only. -/
+def opINC (args obs : List String) : P String := do
+  match args with
+  | [sg, vs] =>
+    let signed : Option Bool := if sg == "n" then none else some (sg == "s")
+    let vs ← pList pRat vs
+    let m := match inferFmt signed none none none vs with
+      | none => ["ERR"]
+      | some g => [showSigned g.signed, toString g.nword, toString g.nfrac, showList toString (vs.map (quantize g .trunc .saturate))]
+    match obs with
+    | [os, on, of, ocs, ov, un, ia] =>
+      match pFmt os on of, pList pInt ocs with
+      | .ok og, .ok ocs =>
+        let within := zipAll (fun v c => decide (Chk.absR (valueOf og c - v) < scale 1 (-og.nfrac))) vs ocs
+        let inexact := !(zipAll (fun v c => decide (valueOf og c = v)) vs ocs)
+        let s := decide (og.nword ≤ 64) && within && ov == "0" && un == "0" && (ia == showBool inexact)
+        pure (reply s s m)
+      | _, _ => pure (reply false false m)
+    | _ => pure (reply false false m)
+  | _ => throw "INC: arity"
+
 /-- `UN <op=neg|pos|abs> <fx> [codes] | s n f [codes]` — unary operators build a default-config object. -/
 def opUN (args obs : List String) : P String := do
   match args with
@@ -631,6 +707,8 @@ def dispatch (op : String) (args obs : List String) : P String :=
   | "NC" => opNC args obs
   | "DR" => opDR args obs
   | "SB" => opSB args obs
+  | "INF" => opINF args obs
+  | "INC" => opINC args obs
   | "BI" => opBI args obs
   | "X18" => opX18 args obs
   | "EX" => opEX args obs
